@@ -108,3 +108,41 @@ def evaluate(t, dm, derivs, scales=None):
     if scales is not None:
         return out, sc
     return out
+
+
+# ---- the three documented groups of the stress tensor kept apart: the conditioning scale of a quantity is
+# the sum of the scales of its documented groups (the documented expanded formulas add these groups
+# numerically, so cancellation *between* groups is inherent in the documented expression)
+def stress_parts(i, j, alpha, beta):
+    parts = [
+        scale(add(term(e(i), e(j)), term(e(j), e(i))), -0.5 * alpha),
+        scale(add(term(plus(e(i), e(j)), Z), term(Z, plus(e(i), e(j)))), 0.5 * (1 - alpha)),
+    ]
+    if i == j:
+        parts.append(scale(laplacian(), -0.5 * beta))
+    else:
+        parts.append({})
+    return parts
+
+
+def force_parts(j, alpha, beta):
+    out = []
+    for g in range(3):
+        out.append(scale(add(*[ddr(stress_parts(i, j, alpha, beta)[g], i) for i in range(3)]), -1.0))
+    return out
+
+
+def ehess_parts(j, k, alpha, beta):
+    return [ddr(p, k) for p in force_parts(j, alpha, beta)]
+
+
+def evaluate_parts(parts, dm, derivs, scales):
+    """value of the sum of the parts, and the sum of the parts' conditioning scales"""
+    val, sc = 0.0, 0.0
+    for p in parts:
+        if not p:
+            continue
+        v, s = evaluate(p, dm, derivs, scales)
+        val = val + v
+        sc = sc + s
+    return val, sc
